@@ -3,6 +3,7 @@ package sx
 import (
 	"fmt"
 	"go/types"
+	"os"
 	"sort"
 	"strings"
 )
@@ -152,6 +153,9 @@ func (e *Explorer) LocksetReport() []string {
 	sort.Strings(names)
 	for _, n := range names {
 		a := e.accesses[n]
+		if os.Getenv("GOSX_LOCKDUMP") != "" {
+			fmt.Fprintf(os.Stderr, "LOCKDUMP %s reads=%d writes=%d common=%v unlocked=%v\n", n, a.Reads, a.Writes, a.Common, a.Unlocked)
+		}
 		if a.Writes > 0 && len(a.Common) == 0 && a.Reads+a.Writes > 1 {
 			out = append(out, fmt.Sprintf("%s: %d reads, %d writes, no common lock; unlocked accesses: %s", n, a.Reads, a.Writes, strings.Join(a.Unlocked, " | ")))
 		}
